@@ -209,12 +209,23 @@ class VariableTransformer:
             np.logical_and((~np.isfinite(self.orig_ub)), self.apply_log_t)
         ] = 1e6
 
-        numeps = 1e-6  # accepted numerical error (relative for large values)
+        # accepted numerical error, relative to the magnitude of each variable's bounds
+        numeps = 1e-6 * np.maximum(
+            1.0,
+            np.max(
+                np.abs(
+                    np.concatenate(
+                        [lbtest, ubtest, self.orig_plb, self.orig_pub]
+                    )
+                ),
+                axis=0,
+            ),
+        )
         tests = np.zeros(4)
-        tests[0] = np.all(np.abs(ginv(g(lbtest)) - lbtest) < numeps * np.maximum(1.0, np.abs(lbtest)))
-        tests[1] = np.all(np.abs(ginv(g(ubtest)) - ubtest) < numeps * np.maximum(1.0, np.abs(ubtest)))
-        tests[2] = np.all(np.abs(ginv(g(self.orig_plb)) - self.orig_plb) < numeps * np.maximum(1.0, np.abs(self.orig_plb)))
-        tests[3] = np.all(np.abs(ginv(g(self.orig_pub)) - self.orig_pub) < numeps * np.maximum(1.0, np.abs(self.orig_pub)))
+        tests[0] = np.all(np.abs(ginv(g(lbtest)) - lbtest) < numeps)
+        tests[1] = np.all(np.abs(ginv(g(ubtest)) - ubtest) < numeps)
+        tests[2] = np.all(np.abs(ginv(g(self.orig_plb)) - self.orig_plb) < numeps)
+        tests[3] = np.all(np.abs(ginv(g(self.orig_pub)) - self.orig_pub) < numeps)
         if not np.all(tests):
             raise ValueError("Cannot invert the transform to obtain the identity at the provided boundaries.")
 
